@@ -578,7 +578,11 @@ func runBARRIER(c *Ctx) {
 					// the machinery's own "has a store failed already" helper
 					onlyNilTests := func(b *ssa.BasicBlock) bool {
 						for _, f := range ir.FactsAt(b) {
-							if _, _, isNil := ir.NilTest(f.Cond); isNil {
+							if tv, tnn, isNil := ir.NilTest(f.Cond); isNil {
+								// "first error wins": the cell may be required to be still nil, never to be non-nil
+								if ld, ok := tv.(*ssa.UnOp); ok && ld.Op == token.MUL && isE(ld.X) && f.Truth == tnn {
+									return false
+								}
 								continue
 							}
 							if call, ok := f.Cond.(*ssa.Call); ok {
@@ -624,6 +628,71 @@ func runBARRIER(c *Ctx) {
 					}
 				}
 			}
+		}
+	}
+	// (10) no worker path ends with the mutex still held (the next worker would block forever and Wait never returns)
+	for fn := range isBody {
+		hasDeferUnlock := false
+		for _, b := range fn.Blocks {
+			for _, ins := range b.Instrs {
+				if d, ok := ins.(*ssa.Defer); ok {
+					if _, ok := syncCall(d, "Mutex", "Unlock"); ok {
+						hasDeferUnlock = true
+					}
+				}
+			}
+		}
+		n := len(fn.Blocks)
+		in, out := make([]bool, n), make([]bool, n)
+		step := func(b *ssa.BasicBlock, st bool, visit func(ssa.Instruction, bool)) bool {
+			for _, ins := range b.Instrs {
+				if visit != nil {
+					visit(ins, st)
+				}
+				if ci, ok := ins.(*ssa.Call); ok {
+					if _, ok := syncCall(ci, "Mutex", "Lock"); ok {
+						st = true
+					}
+					if _, ok := syncCall(ci, "Mutex", "Unlock"); ok {
+						st = false
+					}
+				}
+			}
+			return st
+		}
+		for changed := true; changed; {
+			changed = false
+			for _, b := range fn.Blocks {
+				v := false
+				for _, p := range b.Preds {
+					v = v || out[p.Index]
+				}
+				o := step(b, v, nil)
+				if v != in[b.Index] || o != out[b.Index] {
+					in[b.Index], out[b.Index] = v, o
+					changed = true
+				}
+			}
+		}
+		locks := false
+		for _, b := range fn.Blocks {
+			step(b, in[b.Index], func(ins ssa.Instruction, held bool) {
+				if ci, ok := ins.(*ssa.Call); ok {
+					if _, ok := syncCall(ci, "Mutex", "Lock"); ok {
+						locks = true
+					}
+				}
+				if r, ok := ins.(*ssa.Return); ok {
+					if len(b.Preds) == 0 && b.Index != 0 {
+						return
+					}
+					if held && !hasDeferUnlock {
+						c.Violation(fn, P.InstrPos(r), "worker can return with the mutex held", "on some path the lock taken around the first-error variable is not released before the goroutine ends: every later worker blocks on Lock, Wait never returns and MakeRoot hangs")
+					} else if locks {
+						c.OK(P.InstrPos(r), "(10) exit of "+ir.FuncName(fn), "mutex released on every path to this return", false)
+					}
+				}
+			})
 		}
 	}
 	// (9) the dequeued closure runs unless a store has already failed: its call is conditioned on nothing but
